@@ -143,6 +143,10 @@ func (u *controlUnit) handleRunner(ctx *risc.Context, cycle int, runner *risc.In
 	}
 
 	if should, previousRunner, register := u.shouldUseForwarding(runner, hazards, hazardTypes); should {
+		if !u.outBus.CanAdd() {
+			// Do not wire the forwarding of a dispatch that can't happen now
+			return false, true
+		}
 		ch := make(chan int32, 1)
 		previousRunner.Forwarder = ch
 		runner.Receiver = ch
